@@ -1,5 +1,5 @@
 SPECIFICATION Spec
-CONSTANTS Configs <- CfgAll AddProgs <- P22 NClosers = 1 AllowCancel = TRUE ConsKinds <- Slow MaxNow = 10
+CONSTANTS Configs <- CfgSmall AddProgs <- P21 NClosers = 1 AllowCancel = TRUE ConsKinds <- Slow MaxNow = 4
   AdvIdleOnly = FALSE UseMonitor = FALSE CloseFix = TRUE Variant = "ok"
 INVARIANTS NoWedge SignalsLeAdds WaitGroupExact CloseWaited NoLostAdd TypeOK
 CHECK_DEADLOCK FALSE
